@@ -233,6 +233,9 @@ def cases(tier):
                  "heat_exchangers", "heat_consumers", "junctions"):
         for sector in ("all", "heat") if tier == "quick" else SECTORS:
             out.append({"kind": "bulk_vs_single", "what": name, "sector": sector})
+    for what in ("sinks", "sources", "pipes_from_parameters", "flow_controls"):
+        for nexist in (0, 1, 2, 3):
+            out.append({"kind": "bulk_series", "what": what, "nexist": nexist})
     out.append({"kind": "std_vs_params", "chunk": 0})
     return out
 
@@ -353,6 +356,8 @@ def run_case(case):
         return {"status": "ok", "violations": vs, "nontrivial": n > 0, "sig": core.jhash(case)}
     if k == "bulk_vs_single":
         return bulk_vs_single(case)
+    if k == "bulk_series":
+        return bulk_series(case)
     if k == "std_vs_params":
         return std_vs_params()
     raise KeyError(k)
@@ -506,3 +511,61 @@ def std_vs_params():
             vs.append(viol("std_type_vs_parameters", "pump %s: pressures %s from std type, %s from its coefficients" % (
                 name, a.res_junction.p_bar.values, b.res_junction.p_bar.values), col="pump"))
     return {"status": "ok", "violations": vs, "nontrivial": n > 10, "sig": "std", "info": {"std_types_compared": n}}
+
+
+def bulk_series(case):
+    """per-element arguments given as pandas Series with the default RangeIndex on a table that already holds nexist rows
+    (labels of the Series partially overlap the new indices for 0 < nexist < n)"""
+    what, nexist = case["what"], case["nexist"]
+    vs = []
+    nets = []
+    for mode in ("bulk", "single"):
+        net = make_net("junction_only", "all")
+        vals = [0.11, 0.22, 0.33]
+        sc = [1.0, 2.0, 0.5]
+        for i in range(nexist):
+            if what in ("sinks", "sources"):
+                getattr(pp, "create_" + what[:-1])(net, 0, 0.01 * (i + 1))
+            elif what == "pipes_from_parameters":
+                pp.create_pipe_from_parameters(net, 0, 1, 0.1, 50.0)
+            else:
+                pp.create_flow_control(net, 0, 1, 0.01)
+        try:
+            if what in ("sinks", "sources"):
+                if mode == "bulk":
+                    getattr(pp, "create_" + what)(net, [0, 1, 2], pd.Series(vals), scaling=pd.Series(sc))
+                else:
+                    for j, m, c in zip([0, 1, 2], vals, sc):
+                        getattr(pp, "create_" + what[:-1])(net, j, m, scaling=c)
+                table = what[:-1]
+            elif what == "pipes_from_parameters":
+                if mode == "bulk":
+                    pp.create_pipes_from_parameters(net, [0, 1, 2], [1, 2, 5], pd.Series(vals), pd.Series([50.0, 60.0, 70.0]), sections=pd.Series([1, 2, 3]))
+                else:
+                    for a, b, L, d, sct in zip([0, 1, 2], [1, 2, 5], vals, [50.0, 60.0, 70.0], [1, 2, 3]):
+                        pp.create_pipe_from_parameters(net, a, b, L, d, sections=sct)
+                table = "pipe"
+            else:
+                if mode == "bulk":
+                    pp.create_flow_controls(net, [0, 1, 2], [1, 2, 5], pd.Series(vals), control_active=pd.Series([True, False, True]))
+                else:
+                    for a, b, m, act in zip([0, 1, 2], [1, 2, 5], vals, [True, False, True]):
+                        pp.create_flow_control(net, a, b, m, control_active=act)
+                table = "flow_control"
+            nets.append(("ok", net[table].copy()))
+        except Exception as e:
+            nets.append(("raised:" + type(e).__name__, None))
+    if nets[0][0] != nets[1][0]:
+        vs.append(viol("bulk_vs_single_verdict", "create_%s with Series arguments on a table with %d rows: bulk %s, singles %s" % (
+            what, nexist, nets[0][0], nets[1][0]), what=what))
+    elif nets[0][1] is not None:
+        a, b = nets[0][1].copy(), nets[1][1].copy()
+        for fr in (a, b):
+            for c in ("name", "std_type"):
+                if c in fr.columns:
+                    fr[c] = [None if (v is None or v == "" or (isinstance(v, float) and np.isnan(v))) else v for v in fr[c]]
+        d = spec.frames_equal(a, b)
+        if d:
+            vs.append(viol("bulk_vs_single", "create_%s with Series arguments on a table with %d existing rows: %s" % (what, nexist, d),
+                           what=what, table=what, kind="series"))
+    return {"status": "ok", "violations": vs, "nontrivial": True, "sig": core.jhash(case)}
